@@ -492,7 +492,10 @@ func (h *Handler) HandleGetDirSize(ctx *Context, path string) (int64, error) {
 		walkFs = u.Unwrap()
 	}
 
-	var size int64
+	var (
+		size    int64
+		visited []fs.FileInfo // links are followed, so the same directory may be met again (maybe as its own descendant)
+	)
 	// detach afero.Lstater interface to resolve symlinks in afero.Walk.
 	_ = afero.Walk(&fsOnly{walkFs}, path, func(path string, info fs.FileInfo, err error) error {
 		if err != nil {
@@ -502,6 +505,13 @@ func (h *Handler) HandleGetDirSize(ctx *Context, path string) (int64, error) {
 		}
 
 		if info.IsDir() {
+			for _, v := range visited {
+				if os.SameFile(v, info) {
+					return filepath.SkipDir
+				}
+			}
+
+			visited = append(visited, info)
 			return nil
 		}
 
